@@ -88,3 +88,18 @@ package sts
 //@   modifies nothing
 //@ interface Binnable.IsAllocated trusted
 //@   modifies nothing
+
+//@ interface Payload.Split trusted
+//@   modifies nothing
+//@ interface Payload.GetParts trusted
+//@   modifies nothing
+//@ interface Payload.Remove trusted
+//@   modifies nothing
+//@ interface Payload.GetSize trusted
+//@   modifies nothing
+//@ interface Payload.IsFull trusted
+//@   modifies nothing
+//@ interface Payload.Add trusted
+//@   modifies nothing
+//@ interface Payload.GetStarted pure stable
+//@ interface Payload.GetCompleted pure stable
